@@ -15,6 +15,9 @@ CHECKS = {
  "C03": dict(engine="ENUM+SIM", design="§4 C03", technique="bounded-exhaustive enumeration of a lattice of request framing / syntax mutations, each executed through an unmodified worker under every explored segmentation and one I/O deviation, with an independent canonical RFC 9112 reader as the backend",
    text="281 HTTP/1.1 client byte strings (request-line, Host, Content-Length, Transfer-Encoding, both framings, chunked-body syntax, field syntax, valid pipelines; every smuggling shape spellable in HTTP/1.1: CL.TE, TE.CL, TE.TE obfuscations, duplicate and signed lengths, integer wrap, obs-fold, bare LF / CR, NUL and control bytes, whitespace before the colon, Connection-nominated framing headers, forbidden trailers), each followed by marker requests, go through an unmodified worker to a backend that is an independent canonical RFC 9112 reader; the client's write is cut at line/colon boundaries (quick) or at every byte (thorough), plus one short or refused read / write. Every backend connection must parse canonically (one simplest-form framing header, one Host, no control bytes / obs-fold / bare LF), every request found there must carry a Sozu-Id sozu generated (a request sozu itself understood), canonical client input must be forwarded with the same method, target, authority and body in the same order, and the response stream must be well formed.",
    note="HTTP/1.1 frontend and backend only: the HTTP/2 halves of C03 (pseudo-header placement, Content-Length vs DATA, connection-specific fields) need the H2 actors. 'Rejected' is not required to be a 400: closing without forwarding is accepted. Chunk extensions and trailers that sozu refuses or drops are a C01/C02 matter, not flagged here."),
+ "C13": dict(engine="ENUM+SIM", design="§4 C13", technique="bounded-exhaustive enumeration of header-list x listener-setting x peer-address scenarios, each executed through an unmodified worker under every schedule with at most d I/O deviations, against a reference transformation of the client's field list",
+   text="HTTP/1.1 requests and responses through an unmodified worker: 9 listener / cluster settings (X-Real-IP elide / send, custom correlation header, sticky sessions, per-frontend header edits, PROXY-protocol v4 / v6 sources) x 29 request header lists (duplicates, case variants, odd values, cookies with the sticky cookie at every position and look-alikes, spoofed X-Forwarded-For / Forwarded / X-Real-IP / X-Forwarded-Proto / -Port / X-Request-Id / correlation fields, injection attempts in values, metadata in trailers) plus 4 settings x 6 response header lists. After removing sozu's documented additions (each checked against the real or PROXY-announced peer address and the listener) the backend's field list must equal the client's in order and value, cookies other than the sticky cookie intact, exactly one correlation header and one request id, no proxy metadata in trailers; the client's response field list must equal the backend's plus the documented additions.",
+   note="HTTP/1.1 on both sides only: H2/H1 conversion (connection-specific fields, pseudo-headers, cookie crumbling) needs the H2 actors. Field values with bytes >= 0x80 are refused by the default (non 'tolerant-http1-parser') build by design and are left out. HSTS is HTTPS-only and not exercised."),
  "C01": dict(engine="SIM", design="§4 C01", technique="stateless deviation-bounded exhaustive search over environment schedules (short/would-block reads and writes, peer segmentation, readiness order) under an unmodified worker event loop with interposed syscalls and virtual time",
    text="An unmodified sozu_lib Server::run() proxies between scripted HTTP/1.1 clients and backends over real loopback sockets while epoll_wait/read/write/clock/getrandom are interposed: for 108 (quick) / 250+ (thorough) scenarios (framing x direction x sizes straddling buffer and frame boundaries x buffer_size x keep-alive) every schedule with at most 1 (quick) / 2 (thorough) deviations is executed; request bodies at the backend and response bodies at the client must equal what was sent, end cleanly, and complete without any timer having fired.",
    note="HTTP/1.1 to HTTP/1.1 pair only so far (H2/TLS pairs need the TLS + H2 actors). The simulated kernel only produces behaviours a Linux kernel may produce; EINTR/ENOBUFS and real TCP timing are not modelled. Six known findings, all on close-delimited responses."),
@@ -60,7 +63,6 @@ CHECKS = {
 }
 
 PLANNED = {
- "C13": "SIM engine not built yet; planned, see DESIGN.md §4 C13",
  "C14": "SIM engine not built yet; planned, see DESIGN.md §4 C14",
 }
 
